@@ -434,6 +434,34 @@ func checkC18(c *Check) {
 			add(b.finish(fmt.Sprintf("nested-command-argument/%s/%s", inner.name, pos), ExprStmt{AppCall{[]AppStage{stage(b, "p_rec", args...)}}}, pr(sl("done"))))
 		}
 	}
+	// one program standing in several stages of a chain: every stage runs
+	for _, capture := range []bool{false, true} {
+		// (the stages of a chain run at the same time and one program writes one log: the order of its lines says
+		// nothing, so these cells are judged by what comes out of the chain, not by the logs)
+		for ci, names := range [][]string{{"p_say", "p_tagA", "p_tagA"}, {"p_say", "p_tagA", "p_tagB", "p_tagA"}, {"p_say", "p_tagB", "p_tagB", "p_tagB"}, {"p_say", "p_say"}, {"p_say", "p_say", "p_tagA"}} {
+			b := newC18()
+			stages := []AppStage{}
+			for si, nm := range names {
+				switch nm {
+				case "p_say":
+					stages = append(stages, stage(b, nm, hx(fmt.Sprintf("from stage %d\n", si)), sl(strconv.Itoa(si+1))))
+				case "p_rec":
+					stages = append(stages, stage(b, nm, sl(fmt.Sprintf("arg of stage %d", si))))
+				default:
+					stages = append(stages, stage(b, nm, sl(strconv.Itoa(si+2))))
+				}
+			}
+			key := fmt.Sprintf("same-program-in-several-stages/%d/capture=%v", ci, capture)
+			var bc BashCase
+			if capture {
+				bc = b.finish(key, VarDecl{Names: []string{"o", "e", "code"}, Short: true, Values: []Expr{AppCall{stages}}}, pr(framed(vr("o")), vr("code")))
+			} else {
+				bc = b.finish(key, ExprStmt{AppCall{stages}}, pr(sl("done")))
+			}
+			bc.CheckFS = false
+			add(bc)
+		}
+	}
 	// several command calls used as values in one expression list: each keeps its own output
 	{
 		say := func(b *c18Builder, out string, code int) Expr {
